@@ -1,9 +1,10 @@
 package main
 
 // C20, further construction routes and limits:
-//   * bit strings (and the addresses holding them) as ReadBits returns them,
-//     with source bits left behind their length after a byte-aligned read;
-//     the same through tlb.Unmarshal of a message header
+//   * bit strings (and the addresses holding them) as ReadBits returns them
+//     (aligned and unaligned read positions; since the repair of ReadBits the
+//     result's buffer is clean), the same through tlb.Unmarshal of a message
+//     header, and bit strings with junk behind their length through On(n)
 //   * Unmarshal into a receiver that already holds another value
 //   * cell trees at the depth limit (1023..1026 cells on a path), trees built in
 //     memory from distinct but equal cells
@@ -44,8 +45,31 @@ func derivedBitString20(pre, bits, tail string) boc.BitString {
 	return v
 }
 
+// onBitString20: bits written into NewBitString(len+len(tail)), then the exported
+// On(n) switches on the positions behind the length where tail has a 1
+func onBitString20(bits, tail string) boc.BitString {
+	b := boc.NewBitString(len(bits) + len(tail))
+	for i := 0; i < len(bits); i++ {
+		if err := b.WriteBit(bits[i] == '1'); err != nil {
+			panic("c20: WriteBit failed while building a value")
+		}
+	}
+	for i := 0; i < len(tail); i++ {
+		if tail[i] == '1' {
+			if err := b.On(len(bits) + i); err != nil {
+				panic("c20: On failed while building a value")
+			}
+		}
+	}
+	return b
+}
+
 // bitStringMaker20 interprets the family argument of 'bitstring / 'addr
 func bitStringMaker20(arg sx.V) func(bits string) boc.BitString {
+	if arg.K == sx.KL && len(arg.List) == 1 {
+		tail := arg.List[0].Bits
+		return func(bits string) boc.BitString { return onBitString20(bits, tail) }
+	}
 	if arg.K == sx.KL && len(arg.List) == 2 {
 		pre, tail := arg.List[0].Bits, arg.List[1].Bits
 		return func(bits string) boc.BitString { return derivedBitString20(pre, bits, tail) }
@@ -153,6 +177,18 @@ func genC20Derived(c *Ctx) {
 					case20{fam: "addr", arg: arg, val: sx.L(sx.A("ext"), sx.Bits(bits)), class: "addr|ext|read|" + al}.run(c, 0)
 					wc := int64(int32(r.U64()))
 					case20{fam: "addr", arg: arg, val: sx.L(sx.A("var"), sx.A("no"), sx.Nat(n), sx.Z(wc), sx.Bits(bits)), class: "addr|var|read|" + al}.run(c, 0)
+				}
+			}
+		}
+		// junk behind the length through the exported On(n)
+		for _, n := range []int{1, 2, 3, 5, 6, 7, 9, 10, 11, 13, 14, 15, 61, 254, 255, 257, 510, 511} {
+			for _, tail := range []string{"1", "11", "111", "0111", "1111111", strings.Repeat("1", 9), randBits(r, 1+r.Intn(12))} {
+				arg := sx.L(sx.Bits(tail))
+				bits := randBits(r, n)
+				case20{fam: "bitstring", arg: arg, val: sx.Bits(bits), class: "bitstring|on"}.run(c, 0)
+				if rep > 0 || n < 16 {
+					case20{fam: "addr", arg: arg, val: sx.L(sx.A("ext"), sx.Bits(bits)), class: "addr|ext|on"}.run(c, 0)
+					case20{fam: "addr", arg: arg, val: sx.L(sx.A("var"), sx.A("no"), sx.Nat(n), sx.Z(int64(int32(r.U64()))), sx.Bits(bits)), class: "addr|var|on"}.run(c, 0)
 				}
 			}
 		}
